@@ -135,3 +135,31 @@ func rawSubOn(o *opReq, kind int, choice int, id func() string) *submission {
 		return &submission{Transport: proto, Role: role, Label: "raw-" + rt.Label, WS: &wsEnv{Proto: proto, Type: startType(proto), ID: i, Payload: &text, Raw: raw}}
 	}
 }
+
+// raw texts as the "variables" (or "extensions") URL parameter of a GET: the third place where JSON
+// text is read (json.Unmarshal into a nil map)
+var rawVarTexts = []rawText{
+	{"utf8-invalid", "{\"s\":\"a\xffb\xf0\x9f\",\"k\xfe\":1}"},
+	{"surrogates", `{"s":"\ud800\ud800\udc00x\udfff\ud83d\ude00\ud800"}`},
+	{"numbers", `{"f":1E+2,"g":-0.0e-0,"s":"n","i":123456789012345678901234567890}`},
+	{"deep", `{"s":"d","u":` + strings.Repeat("[", 30) + strings.Repeat("]", 30) + `}`},
+	{"escapes", `{"s":"\u0000\/\b\f\"\\\u00e9","\u0073":"dup"}`},
+	{"spaced", " {\n\"s\"\t:\r\"w\" } "},
+	{"dup-merge", `{"s":"first","s":"second","t":{"a":1},"t":{"b":2}}`},
+	{"bad-number", `{"s":1.}`},
+	{"bad-control", "{\"s\":\"\x01\"}"},
+	{"bad-bom", "\ufeff{}"},
+	{"bad-literal", `{"a":tru}`},
+	{"bad-nbsp", "{\u00a0}"},
+	{"bad-hex", `{"s":"\u12G4"}`},
+}
+
+func rawGetSub(kind int, name string) *submission {
+	rt := rawVarTexts[kind]
+	role := "other"
+	if !json.Valid([]byte(rt.Text)) {
+		role = "malformed"
+	}
+	ps := [][2]string{{"query", "query Q($s: String) { echoString(x: $s) }"}, {name, rt.Text}}
+	return &submission{Transport: "get", Role: role, Label: "raw-" + name + "-" + rt.Label, HTTP: &httpEnv{Method: "GET", Params: ps}}
+}
